@@ -42,7 +42,7 @@ def main():
         out["demo_with_patch"] = run_demo()
         if "--tests" in args:
             rc, o = sh(["/venv/bin/python", "-m", "pytest", "-q", "-p", "no:cacheprovider", "--timeout=900",
-                        "--continue-on-collection-errors", "-x" if False else "-q"], cwd=wt, timeout=3000)
+                        "--continue-on-collection-errors"], cwd=wt, timeout=3000)
             m = re.search(r"(\d+) passed", o)
             out["tests_passed_with_patch"] = int(m.group(1)) if m else None
             out["tests_tail"] = o.strip().splitlines()[-1][:200]
